@@ -587,8 +587,12 @@ class EH:
                 self.lp[mm.group(1)] = mm.group(2)
             if kind == 'try':
                 cs = []
-                for mm in re.finditer(r'catch:\{lab:<(L\d+)>;([^}]*)\}', rest):
+                # 'catch:{lab:<L62>;struct invalid_argument},{lab:<L63>;struct out_of_range}': only the first handler carries the 'catch:' prefix
+                cm = re.search(r'catch:((?:\{lab:<L\d+>;[^}]*\},?)+)', rest)
+                for mm in re.finditer(r'\{lab:<(L\d+)>;([^}]*)\}', cm.group(1) if cm else ''):
                     cs.append((mm.group(1), mm.group(2).strip() or None))
+                if len(cs) != rest.count('{lab:'):
+                    raise G2CError('try region %d: %d handlers parsed, %d in the dump: %r' % (reg, len(cs), rest.count('{lab:'), rest))
                 self.catches[reg] = cs
             elif kind not in ('cleanup', 'must_not_throw'):
                 raise G2CError('unsupported EH region kind %r' % kind)
